@@ -354,24 +354,16 @@ pub(crate) fn register_other(builder: &mut GlobalsBuilder) {
             }
         };
 
-        let mut compare_ok = Ok(());
-
-        it.sort_by(|x: &(Value, Value), y: &(Value, Value)| {
-            let ord_or_err = if reverse {
+        // The comparison can fail (values of different types): the sort stops at the first
+        // failure. `slice::sort_by` cannot stop, and may panic when the answers it keeps getting
+        // after a failure do not form a total order.
+        try_stable_sort_by(&mut it, |x: &(Value, Value), y: &(Value, Value)| {
+            if reverse {
                 x.1.compare(y.1).map(Ordering::reverse)
             } else {
                 x.1.compare(y.1)
-            };
-            match ord_or_err {
-                Ok(r) => r,
-                Err(e) => {
-                    compare_ok = Err(e);
-                    Ordering::Equal // does not matter
-                }
             }
-        });
-
-        compare_ok?;
+        })?;
 
         Ok(AllocList(it.into_iter().map(|x| x.0)))
     }
@@ -393,6 +385,53 @@ pub(crate) fn register_other(builder: &mut GlobalsBuilder) {
     fn r#type<'v>(#[starlark(require = pos)] a: Value) -> anyhow::Result<FrozenStringValue> {
         Ok(a.get_type_value())
     }
+}
+
+/// Stable (bottom-up merge) sort with a comparison that can fail.
+fn try_stable_sort_by<T: Copy, E>(
+    v: &mut Vec<T>,
+    mut compare: impl FnMut(&T, &T) -> Result<Ordering, E>,
+) -> Result<(), E> {
+    let n = v.len();
+    let mut buf = v.clone();
+    let mut sorted_in_v = true;
+    let mut width = 1;
+    while width < n {
+        {
+            let (src, dst): (&[T], &mut [T]) = if sorted_in_v {
+                (v.as_slice(), buf.as_mut_slice())
+            } else {
+                (buf.as_slice(), v.as_mut_slice())
+            };
+            let mut lo = 0;
+            while lo < n {
+                let mid = std::cmp::min(lo + width, n);
+                let hi = std::cmp::min(lo + 2 * width, n);
+                let (mut l, mut r, mut k) = (lo, mid, lo);
+                while l < mid && r < hi {
+                    // Take from the right run only when strictly smaller: stability.
+                    if compare(&src[r], &src[l])? == Ordering::Less {
+                        dst[k] = src[r];
+                        r += 1;
+                    } else {
+                        dst[k] = src[l];
+                        l += 1;
+                    }
+                    k += 1;
+                }
+                dst[k..k + (mid - l)].copy_from_slice(&src[l..mid]);
+                k += mid - l;
+                dst[k..k + (hi - r)].copy_from_slice(&src[r..hi]);
+                lo = hi;
+            }
+        }
+        sorted_in_v = !sorted_in_v;
+        width *= 2;
+    }
+    if !sorted_in_v {
+        v.copy_from_slice(&buf);
+    }
+    Ok(())
 }
 
 #[cfg(test)]
